@@ -383,3 +383,31 @@ func verifHealthWorker(u *staticUpstream) {
 }
 `)
 }
+
+func init() { generators = append(generators, genServeStart) }
+
+// The goroutine that serves a listener starts some time after the load that created it has
+// returned: its first instruction is a scheduling point (the reload rig holds it back past the
+// next reload).
+func genServeStart(repo, out string, m map[string]string) error {
+	if err := rewriteFile(repo, out, m, "servestart", "caskethttp/httpserver/server.go", []repl{{
+		old: "func (s *Server) Serve(ln net.Listener) error {\n", new: "func (s *Server) Serve(ln net.Listener) error {\n\tverifServeStart(s)\n"}}); err != nil {
+		return err
+	}
+	if !applied["servestart"] {
+		delete(m, filepath.Join(repo, "caskethttp/httpserver/server.go"))
+	}
+	return shim(repo, out, m, "caskethttp/httpserver/zz_verif_servestart.go", `//go:build verif
+
+package httpserver
+
+// VerifServeStart, when set, runs first thing in the goroutine that serves a listener.
+var VerifServeStart func(addr string)
+
+func verifServeStart(s *Server) {
+	if VerifServeStart != nil {
+		VerifServeStart(s.Server.Addr)
+	}
+}
+`)
+}
